@@ -26,7 +26,9 @@ RULE = ("grids w,h,d in 1..4 (1-D, 2-D, 3-D; size <= 36), 1..3 environments, cel
         "invalid stream: wrong length, missing index, entry < -1, all dropped, group mixing environments, non-int entries, periodic "
         "grid; states: integers / fractions / zeros given in the system's or in their own quantity unit, random 0/1 chemostat maps, "
         "1..3 species, random units systems; engine runs: identity map vs plain simulation (two species, chemostated entries) and "
-        "simulate(cgmap=map) structure (even spreading, dropped zero, chemostated groups constant, free species conserved). "
+        "simulate(cgmap=map) structure (even spreading, dropped zero, chemostated groups constant, free species conserved); "
+        "identity-map tau-leap / Gillespie runs of a diffusion-only network with 0-3 molecules per cell and kd*dt about 0.1 over 24 "
+        "seeds (exact conservation of every species' total in every sample). "
         "A case is non-trivial when at least one group has >= 2 cells or a cell is dropped; distinct by (shape, envs, map, h, units)")
 ASSUMPTIONS = [
     "cell volumes are cubes of rational edges (V = h^3, DESIGN §4); the code's cube / square roots are compared to the exact model "
@@ -950,10 +952,60 @@ class _Rec:
         self.counts[k] = self.counts.get(k, 0) + n
 
 
+def conservation_check(d, state, option, ts, dt, seed):
+    """identity-map run of a network that only diffuses (reflecting grid): every sample holds the initial total of every species,
+    exactly (molecule counts are integers; a leap that overdraws a cell leaves it negative, it does not create matter).
+    Returns None or a description of the failure."""
+    from strengths import simulate, rdsystem_from_dict
+    system = rdsystem_from_dict(d)
+    system.state = list(state)
+    n = system.space.size()
+    ns = system.network.nspecies()
+    try:
+        out = simulate(system, t_sample=ts, engine=common.load_engine(option), time_step=dt, rng_seed=seed, cgmap=list(range(n)))
+    except Exception as e:  # noqa
+        return "raised %r" % (e,)
+    vals = [float(v) for v in np.asarray(out.data.value).ravel()]
+    nsamp = len(vals) // (ns * n) if ns * n else 0
+    if nsamp == 0 or len(vals) != nsamp * ns * n:
+        return "trajectory of %d values for %d species x %d cells" % (len(vals), ns, n)
+    for k in range(nsamp):
+        for s_ in range(ns):
+            tot = sum(frac(v) for v in vals[k * ns * n + s_ * n:k * ns * n + (s_ + 1) * n])
+            tot0 = sum(frac(v) for v in state[s_ * n:(s_ + 1) * n])
+            if tot != tot0:
+                return "sample %d species %d holds %s molecules in total, the initial total is %s (cells: %s)" % (
+                    k, s_, fstr(tot), fstr(tot0), vals[k * ns * n + s_ * n:k * ns * n + (s_ + 1) * n][:16])
+    return None
+
+
+def conservation_runs(ctx, rng, count):
+    """tau-leap (and Gillespie) on the graph engine through the identity map, few molecules per cell and a coarse time step
+    (kd * dt about 0.1, so that a leap can draw more departures than a cell holds), many seeds"""
+    shape = rng.choice([(4, 3, 1), (6, 1, 1), (3, 2, 2), (5, 2, 1)])
+    n = shape[0] * shape[1] * shape[2]
+    species = [{"label": "A", "density": 0, "D": 1}, {"label": "B", "density": 0, "D": 2}]
+    d = {"network": {"species": species, "reactions": []}, "space": {"w": shape[0], "h": shape[1], "d": shape[2], "cell_vol": 1}}
+    for k in range(count):
+        option = "tauleap" if k % 5 else "gillespie"
+        state = [float(rng.randint(0, 3)) for _ in range(2 * n)]
+        seed = rng.randint(1, 10 ** 6)
+        dt = rng.choice([0.1, 0.05, 0.125])
+        ts = [0.0, 0.5, 1.0, 2.0]
+        case = {"conservation": {"system": d, "state": state, "option": option, "t_sample": ts, "time_step": dt, "seed": seed}}
+        bad = conservation_check(d, state, option, ts, dt, seed)
+        ctx.case(("conserve", option, shape, tuple(state), seed), nontrivial=True)
+        ctx.count("identity_conservation_" + option)
+        if bad:
+            ctx.violation("identity-conservation:%s" % option, "simulate(cgmap=identity) of a diffusion-only network (%s engine, %dx%dx%d cells, 0-3 "
+                          "molecules per cell, time step %s): %s" % (option, shape[0], shape[1], shape[2], dt, bad), case, impl=bad)
+
+
 def child_engine_runs(seed, n_identity, n_structure):
     rec = _Rec(seed)
     identity_runs(rec, rec.rng, n_identity)
     cg_structure_runs(rec, rec.rng, n_structure)
+    conservation_runs(rec, rec.rng, 24 if n_identity <= 16 else 120)
     return common.jsonable({"violations": rec.violations, "cases": rec.cases, "counts": rec.counts})
 
 
@@ -979,6 +1031,10 @@ def engine_runs_in_child(ctx, seed, n_identity, n_structure, timeout):
 def replay(ctx, rec):
     case = rec.get("case", rec)
     out = {}
+    if "conservation" in case:
+        d = case["conservation"]
+        bad = conservation_check(d["system"], d["state"], d["option"], d["t_sample"], d["time_step"], d["seed"])
+        return bad is None, {"failure": bad}
     if "identity" in case:
         from strengths import rdsystem_from_dict
         d = case["identity"]
